@@ -49,8 +49,11 @@ def check(an, rep, tier):
                     for k, c in enumerate(rv.items[:-1]):
                         want = Poly.sym('r') if rk == 'int:r' else \
                             Poly.sym('r.r%d' % (k + 1))
-                        from .common import cmp3
-                        c3 = cmp3(c.dims[2], want)
+                        from .common import cmp3_free
+                        # the requested ranks and the mode sizes are free
+                        # inputs: a bond that is the requested rank only for
+                        # some orderings of them is not the requested rank
+                        c3 = cmp3_free(c.dims[2], want)
                         if c3 != 'ok' and st != 'violation':
                             st, detail = c3, \
                                 'bond %d is %r, requested %r' % (
